@@ -1,11 +1,60 @@
 /-!
-Model of cmd/console/go_terminal.go as far as C20 needs it: `handleKey` for printable keys
-and Enter (`keyEnter`), with the statement splitter `splitStatements`.
-Keys are code points; the line buffer is a list of code points.
+Model of the line editor of cmd/console/go_terminal.go.
+
+* Key level: `handleKey` for every key of its `switch` (backspace, Alt-left/right, left/right,
+  Home/End, up/down = history, delete word, delete to end of line, ^D, ^U, clear screen, Enter,
+  printable keys), `addKeyToLine` (insertion at the cursor), `eraseNPreviousChars`,
+  `countToLeftWord`/`countToRightWord`, bracketed-paste mode (every key except Enter is added
+  to the line with no `isPrintable` test), the history ring (`stRingBuffer`, 100 entries) with
+  `historyIndex`/`historyPending`, and the statement splitter `splitStatements`.
+  `step` is `handleKey` followed by what `readLine` does with a completed line (every statement
+  handed over becomes a history entry).
+* Byte level: `bytesToKey` (all branches, paste flag), `utf8.FullRune`/`utf8.DecodeRune` as far as
+  `bytesToKey` uses them, and the loop of `readLine`/`ReadLine` over a COMPLETE byte stream
+  (`keyLoop`, `session`): ^C and ^D on an empty line end the console (`io.EOF`), `ESC[200~` /
+  `ESC[201~` switch paste mode, a line that was pasted as a whole comes with `ErrPasteIndicator`.
+
+Keys are numbers: code points, and for the special keys the values of the Go constants
+(`keyUnknown = 0xd800 + iota` with `iota = 6` at that line of the const block).  The line buffer
+is a list of keys.
+
+NOT modelled (display only, no influence on `line`, `pos` or what is handed over): the output queue
+(`queue`, `outBuf`), the cursor bookkeeping (`cursorX`, `cursorY`, `maxLine`, `posLastLF`,
+`moveCursorToPos`, `advanceCursor`, `writeLine`, `clearLineToRight`), `echo` (always true in the
+console), `AutoCompleteCallback` (nil in the console: cmd/console/main.go never sets it).
+The 256-byte `inBuf` is not modelled: the stream is complete, and where a read ends changes no key
+(every decision of `bytesToKey` needs only the bytes up to the end of the sequence; a sequence cut
+by the end of a read is parsed again when more bytes are there).  Excluded point, a defect of the
+code: ESC followed by 255 or more bytes none of which is a letter or `~` fills `inBuf`; `readLine`
+then reads into an empty slice forever.
+
+A statement handed over is modelled as the list of runes of its slice of the line; the conversion
+`string(line[begin:cur+1])` (a rune that is no Unicode scalar value - a special key value that got
+into the line in paste mode - becomes U+FFFD) is `validRune`: applied where the code converts a
+string back to runes (history entries, `historyPending`), and by the driver when it prints.
 -/
 namespace Mkdb.Console
 
+def keyCtrlC : Nat := 3
+def keyCtrlD : Nat := 4
+def keyCtrlU : Nat := 21
 def keyEnter : Nat := 13
+def keyEscape : Nat := 27
+def keyBackspace : Nat := 127
+def keyUnknown : Nat := 0xd806
+def keyUp : Nat := 0xd807
+def keyDown : Nat := 0xd808
+def keyLeft : Nat := 0xd809
+def keyRight : Nat := 0xd80a
+def keyAltLeft : Nat := 0xd80b
+def keyAltRight : Nat := 0xd80c
+def keyHome : Nat := 0xd80d
+def keyEnd : Nat := 0xd80e
+def keyDeleteWord : Nat := 0xd80f
+def keyDeleteLine : Nat := 0xd810
+def keyClearScreen : Nat := 0xd811
+def keyPasteStart : Nat := 0xd812
+def keyPasteEnd : Nat := 0xd813
 
 /-- `isPrintable` and not one of the keys `handleKey` treats specially. -/
 def isPrintable (k : Nat) : Bool := k ≥ 32 && !(0xd800 ≤ k && k ≤ 0xdbff) && k != 127
@@ -62,20 +111,105 @@ def splitStatements (line : List Nat) : List (List Nat) × List Nat :=
   let s := line.foldl feed {}
   (s.done.reverse, s.piece.reverse)
 
+/-- `[]rune(string(r))` for one rune: what is no Unicode scalar value becomes U+FFFD. -/
+def validRune (k : Nat) : Nat := if (0xd800 ≤ k && k ≤ 0xdfff) || k > 0x10ffff then 0xfffd else k
+
+/-- The editor state.  `history`: the entries of the ring, the most recent first (`stRingBuffer`
+with `max = 100`: `NthPreviousEntry n` is `history[n]?`).  `historyIndex` as in the code
+(`-1`: not in the history). -/
 structure Term where
   line : List Nat := []
+  pos : Nat := 0
+  pasteActive : Bool := false
+  history : List (List Nat) := []
+  historyIndex : Int := -1
+  historyPending : List Nat := []
 deriving Repr
 
-/-- `handleKey`: the new state and, when Enter completes the input, the submitted statements. -/
-def step (t : Term) (k : Nat) : Term × Option (List (List Nat)) :=
-  if k == keyEnter then
+/-- `addKeyToLine`: insert at the cursor. -/
+def addKeyToLine (t : Term) (k : Nat) : Term :=
+  { t with line := t.line.take t.pos ++ k :: t.line.drop t.pos, pos := t.pos + 1 }
+
+/-- `eraseNPreviousChars` -/
+def eraseNPreviousChars (t : Term) (n : Nat) : Term :=
+  let n := min n t.pos
+  { t with line := t.line.take (t.pos - n) ++ t.line.drop t.pos, pos := t.pos - n }
+
+/-- first loop of `countToLeftWord`: `for pos > 0 { if line[pos] != ' ' { break }; pos-- }` -/
+def skipSpacesLeft (line : List Nat) : Nat → Nat
+  | 0 => 0
+  | p + 1 => if line.getD (p + 1) 0 != 32 then p + 1 else skipSpacesLeft line p
+
+/-- second loop: `for pos > 0 { if line[pos] == ' ' { pos++; break }; pos-- }` -/
+def wordStartLeft (line : List Nat) : Nat → Nat
+  | 0 => 0
+  | p + 1 => if line.getD (p + 1) 0 == 32 then p + 2 else wordStartLeft line p
+
+def countToLeftWord (t : Term) : Nat :=
+  if t.pos == 0 then 0 else t.pos - wordStartLeft t.line (skipSpacesLeft t.line (t.pos - 1))
+
+/-- `countToRightWord`: over the non-spaces from the cursor on, then over the spaces. -/
+def countToRightWord (t : Term) : Nat :=
+  let suf := t.line.drop t.pos
+  suf.length - ((suf.dropWhile (· != 32)).dropWhile (· == 32)).length
+
+/-- `stRingBuffer.NthPreviousEntry` -/
+def nthPrevious (h : List (List Nat)) (n : Int) : Option (List Nat) :=
+  if n < 0 then none else h[n.toNat]?
+
+/-- `setLine(runes, len(runes))` -/
+def setLine (t : Term) (l : List Nat) : Term := { t with line := l, pos := l.length }
+
+/-- `handleKey`: the new state and, when Enter completes the input, the statements. -/
+def handleKey (t : Term) (k : Nat) : Term × Option (List (List Nat)) :=
+  if t.pasteActive && k != keyEnter then (addKeyToLine t k, none)
+  else if k == keyBackspace then
+    (if t.pos == 0 then t else eraseNPreviousChars t 1, none)
+  else if k == keyAltLeft then ({ t with pos := t.pos - countToLeftWord t }, none)
+  else if k == keyAltRight then ({ t with pos := t.pos + countToRightWord t }, none)
+  else if k == keyLeft then ({ t with pos := t.pos - 1 }, none)
+  else if k == keyRight then (if t.pos == t.line.length then t else { t with pos := t.pos + 1 }, none)
+  else if k == keyHome then ({ t with pos := 0 }, none)
+  else if k == keyEnd then ({ t with pos := t.line.length }, none)
+  else if k == keyUp then
+    match nthPrevious t.history (t.historyIndex + 1) with
+    | none => (t, none)
+    | some e =>
+      (setLine { t with
+          historyPending := if t.historyIndex == -1 then t.line.map validRune else t.historyPending,
+          historyIndex := t.historyIndex + 1 } e, none)
+  else if k == keyDown then
+    if t.historyIndex == -1 then (t, none)
+    else if t.historyIndex == 0 then (setLine { t with historyIndex := -1 } t.historyPending, none)
+    else
+      match nthPrevious t.history (t.historyIndex - 1) with
+      | some e => (setLine { t with historyIndex := t.historyIndex - 1 } e, none)
+      | none => (t, none)
+  else if k == keyDeleteWord then (eraseNPreviousChars t (countToLeftWord t), none)
+  else if k == keyDeleteLine then ({ t with line := t.line.take t.pos }, none)
+  else if k == keyCtrlD then
+    (if t.pos < t.line.length then eraseNPreviousChars { t with pos := t.pos + 1 } 1 else t, none)
+  else if k == keyCtrlU then (eraseNPreviousChars t t.pos, none)
+  else if k == keyClearScreen then (t, none)
+  else if k == keyEnter then
     let (stmts, rest) := splitStatements t.line
-    if rest.all isSpace then ({ line := [] }, some stmts)
-    else ({ line := t.line ++ [32] }, none)
+    if rest.all isSpace then ({ t with line := [], pos := 0 }, some stmts)
+    else (addKeyToLine t 32, none)   -- the line break becomes a space, AT THE CURSOR
   else if isPrintable k then
     -- (no limit on the length of an entry: a key dropped in silence loses or mutilates a statement)
-    ({ line := t.line ++ [k] }, none)
+    (addKeyToLine t k, none)
   else (t, none)
+
+/-- `readLine` after a completed line: `for _, l := range line { t.historyIndex = -1; t.history.Add(l) }`
+(nothing happens, `historyIndex` stays, when no statement is handed over). -/
+def addHistory (t : Term) (stmts : List (List Nat)) : Term :=
+  stmts.foldl (fun t l => { t with historyIndex := -1, history := (l.map validRune :: t.history).take 100 }) t
+
+/-- One key: `handleKey`, and the history entries of a completed line. -/
+def step (t : Term) (k : Nat) : Term × Option (List (List Nat)) :=
+  match handleKey t k with
+  | (t', some s) => (addHistory t' s, some s)
+  | (t', none) => (t', none)
 
 /-- All submissions of a key sequence, in order. -/
 def run : Term → List Nat → List (List (List Nat))
@@ -84,5 +218,156 @@ def run : Term → List Nat → List (List (List Nat))
     match step t k with
     | (t', some s) => s :: run t' ks
     | (t', none) => run t' ks
+
+/-! ## Byte level -/
+
+/-- UTF-8 encoding of a rune as Go's `string(rune)` / `[]byte(string(runes))` gives it. -/
+def encodeRune (c0 : Nat) : List Nat :=
+  let c := validRune c0
+  if c < 0x80 then [c]
+  else if c < 0x800 then [0xC0 + c / 64, 0x80 + c % 64]
+  else if c < 0x10000 then [0xE0 + c / 4096, 0x80 + c / 64 % 64, 0x80 + c % 64]
+  else [0xF0 + c / 262144, 0x80 + c / 4096 % 64, 0x80 + c / 64 % 64, 0x80 + c % 64]
+
+/-- The table `first` of unicode/utf8 with `acceptRanges`: length of the sequence a first byte
+announces (1: ASCII, 0: invalid) and the range of the second byte. -/
+def utf8Class (b : Nat) : Nat × Nat × Nat :=
+  if b < 0x80 then (1, 0, 0)
+  else if b < 0xC2 then (0, 0, 0)
+  else if b < 0xE0 then (2, 0x80, 0xBF)
+  else if b == 0xE0 then (3, 0xA0, 0xBF)
+  else if b == 0xED then (3, 0x80, 0x9F)
+  else if b < 0xF0 then (3, 0x80, 0xBF)
+  else if b == 0xF0 then (4, 0x90, 0xBF)
+  else if b < 0xF4 then (4, 0x80, 0xBF)
+  else if b == 0xF4 then (4, 0x80, 0x8F)
+  else (0, 0, 0)
+
+def isCont (b : Nat) : Bool := 0x80 ≤ b && b ≤ 0xBF
+
+/-- `utf8.FullRune` and `utf8.DecodeRune`: `none` when the bytes are the beginning of a rune that
+is not complete; a byte that begins no rune is U+FFFD of width 1. -/
+def decodeRune : List Nat → Option (Nat × List Nat)
+  | [] => none
+  | b0 :: r =>
+    let (sz, lo, hi) := utf8Class b0
+    if sz == 1 then some (b0, r)
+    else if sz == 0 then some (0xfffd, r)
+    else
+      match r with
+      | [] => none
+      | b1 :: r1 =>
+        if b1 < lo || hi < b1 then some (0xfffd, r)
+        else if sz == 2 then some (b0 % 32 * 64 + b1 % 64, r1)
+        else
+          match r1 with
+          | [] => none
+          | b2 :: r2 =>
+            if !isCont b2 then some (0xfffd, r)
+            else if sz == 3 then some (b0 % 16 * 4096 + b1 % 64 * 64 + b2 % 64, r2)
+            else
+              match r2 with
+              | [] => none
+              | b3 :: r3 =>
+                if !isCont b3 then some (0xfffd, r)
+                else some (b0 % 8 * 262144 + b1 % 64 * 4096 + b2 % 64 * 64 + b3 % 64, r3)
+
+/-- the control bytes `bytesToKey` translates outside paste mode -/
+def ctrlKey (b : Nat) : Option Nat :=
+  if b == 1 then some keyHome else if b == 2 then some keyLeft else if b == 5 then some keyEnd
+  else if b == 6 then some keyRight else if b == 8 then some keyBackspace
+  else if b == 11 then some keyDeleteLine else if b == 12 then some keyClearScreen
+  else if b == 23 then some keyDeleteWord else if b == 14 then some keyDown
+  else if b == 16 then some keyUp else none
+
+/-- `ESC [ c` -/
+def csiKey (c : Nat) : Option Nat :=
+  if c == 65 then some keyUp else if c == 66 then some keyDown else if c == 67 then some keyRight
+  else if c == 68 then some keyLeft else if c == 72 then some keyHome else if c == 70 then some keyEnd
+  else none
+
+/-- `[a-zA-Z~]` -/
+def isSeqEnd (c : Nat) : Bool := (97 ≤ c && c ≤ 122) || (65 ≤ c && c ≤ 90) || c == 126
+
+/-- the bytes after the first `[a-zA-Z~]` -/
+def afterSeqEnd : List Nat → Option (List Nat)
+  | [] => none
+  | c :: r => if isSeqEnd c then some r else afterSeqEnd r
+
+def pasteStartSeq : List Nat := [27, 91, 50, 48, 48, 126]
+def pasteEndSeq : List Nat := [27, 91, 50, 48, 49, 126]
+
+/-- `bytesToKey`: the key and the remaining bytes; `none`: nothing consumed (no bytes, or an
+incomplete sequence). -/
+def bytesToKey (b : List Nat) (paste : Bool) : Option (Nat × List Nat) :=
+  match b with
+  | [] => none
+  | b0 :: r =>
+    match (if paste then none else ctrlKey b0) with
+    | some k => some (k, r)
+    | none =>
+      if b0 != keyEscape then decodeRune b
+      else
+        match (if paste then none else
+                match r with
+                | 91 :: c :: r' => (csiKey c).map (fun k => (k, r'))
+                | _ => none) with
+        | some x => some x
+        | none =>
+          if !paste && b.length ≥ 6 && b.take 5 == [27, 91, 49, 59, 51] && b.getD 5 0 == 67 then
+            some (keyAltRight, b.drop 6)
+          else if !paste && b.length ≥ 6 && b.take 5 == [27, 91, 49, 59, 51] && b.getD 5 0 == 68 then
+            some (keyAltLeft, b.drop 6)
+          else if !paste && b.take 6 == pasteStartSeq then some (keyPasteStart, b.drop 6)
+          else if paste && b.take 6 == pasteEndSeq then some (keyPasteEnd, b.drop 6)
+          else (afterSeqEnd b).map (fun rest => (keyUnknown, rest))
+
+/-- How one `ReadLine` ends. -/
+inductive Outcome where
+  | line (stmts : List (List Nat))     -- `err == nil`
+  | pasted (stmts : List (List Nat))   -- the statements together with `ErrPasteIndicator`
+  | eof                                -- `io.EOF`: ^C, ^D on an empty line, or the stream is at its end
+deriving Repr
+
+/-- The loop of `readLine` on what is left of the stream (`fuel`: at least the number of bytes):
+the state after it, the bytes left (`remainder`), how it ended.  `lip` is `lineIsPasted`. -/
+def keyLoop : Nat → Term → Bool → List Nat → Term × List Nat × Outcome
+  | 0, t, _, rest => (t, rest, .eof)
+  | fuel + 1, t, lip, rest =>
+    match bytesToKey rest t.pasteActive with
+    | none => (t, rest, .eof)
+    | some (key, after) =>
+      if !t.pasteActive then
+        if key == keyCtrlD && t.line.isEmpty then (t, after, .eof)
+        else if key == keyCtrlC then (t, after, .eof)
+        else if key == keyPasteStart then
+          keyLoop fuel { t with pasteActive := true } (lip || t.line.isEmpty) after
+        else
+          match step t key with
+          | (t', some s) => (t', after, .line s)
+          | (t', none) => keyLoop fuel t' false after
+      else if key == keyPasteEnd then keyLoop fuel { t with pasteActive := false } lip after
+      else
+        match step t key with
+        | (t', some s) => (t', after, if lip then .pasted s else .line s)
+        | (t', none) => keyLoop fuel t' lip after
+
+/-- `ReadLine` on what is left of the stream. -/
+def readLine (t : Term) (bytes : List Nat) : Term × List Nat × Outcome :=
+  keyLoop (bytes.length + 1) t t.pasteActive bytes
+
+/-- The loop `for { lines, err := t.ReadLine(); ... }` of the console (cmd/console/main.go
+`runTerminal`: `io.EOF` ends it; `ErrPasteIndicator` comes with a valid line and only says that the line
+was pasted - its statements are executed like any others since repair edcd8de, before which a pasted line
+ended the console with its statements dropped) on a complete byte stream: the lines handed over. -/
+def sessionFrom : Nat → Term → List Nat → List (List (List Nat))
+  | 0, _, _ => []
+  | fuel + 1, t, bytes =>
+    match readLine t bytes with
+    | (t', rest, .line s) => s :: sessionFrom fuel t' rest
+    | (t', rest, .pasted s) => s :: sessionFrom fuel t' rest
+    | _ => []
+
+def session (bytes : List Nat) : List (List (List Nat)) := sessionFrom (bytes.length + 1) {} bytes
 
 end Mkdb.Console
